@@ -5,7 +5,16 @@ For every client connection the proxy accepted (its connect completed with succe
 B = the bytes its composed writes were accepted for, cut into requests at CRLF CRLF:
 
   * first request malformed / not an `http://` absolute URI  -> the client receives nothing and sees
-    end-of-stream (`malformed_closes`);
+    end-of-stream (`malformed_closes`); a first request whose target starts with `http://` but whose
+    authority names no host or no port (empty host, empty / non-numeric / out-of-range port, unbalanced
+    bracket) is malformed too, yet "cannot be resolved or connected" can be said of it as well: the client
+    receives nothing or exactly one 503 response, then end-of-stream, and never a byte of any origin
+    (`malformed_closes`);
+  * a LATER request of the session that is malformed / not an `http://` absolute URI closes the client
+    connection too (`malformed_closes`: end-of-stream at the client once the run ended, unless the client
+    closed first), and nothing beyond the origin-form requests preceding it ever reaches the origin
+    (`origin_bytes`). What was still in flight for the earlier requests when the close comes is lost
+    (close_connection() closes both sockets at once), so no completeness is demanded of such a session;
   * host unresolvable (lookup error or empty answer) or connect refused -> the client receives exactly
     one `HTTP/1.1 503 <text>\\r\\ncontent-length: 0\\r\\n\\r\\n` and then end-of-stream (`answers_503`);
   * otherwise the k-th connection accepted by the origin listening at (first address of the host,
@@ -13,7 +22,8 @@ B = the bytes its composed writes were accepted for, cut into requests at CRLF C
     of the origin-form requests (`origin_bytes`: same method, path, `HTTP/1.1`, same header set
     compared as name(lower-case) -> trimmed value, `host` added iff it was missing), for the
     leading requests naming the same origin; the bytes the client read are a prefix of the
-    bytes the origin's writes were accepted for (`relay_verbatim`); and when the run ended with
+    bytes the origin's writes were accepted for, continued by the data of its write still in progress
+    (`relay_verbatim`); and when the run ended with
     nobody having closed or reset either connection: all of them (`origin_complete`,
     `relay_complete`);
   * a client whose connect was started while the proxy had not been stopped is accepted as soon as
@@ -24,8 +34,43 @@ B = the bytes its composed writes were accepted for, cut into requests at CRLF C
     the proxy's node is for the host of some request a client sent, and that host is not an address
     literal (`lookup_is_requested_name`).
 
-Reads use buffers of at most 48 bytes in the generated scenarios, so every byte is in the trace."""
-import re
+Reads use buffers of at most 48 bytes in most generated scenarios, so every byte is in the trace; a
+read of more than 48 bytes is logged as `n=<k> sum=<digest>`: such a chunk is compared through its
+digest with the bytes expected at its offset (what the attributed origin connection sent / one of the
+two 503 texts of the library); origins may also answer with `write_loop` (bytes of a deterministic
+stream)."""
+import re, collections
+
+EVAL = collections.Counter()    # how often each demanding clause was actually evaluated (coverage accounting only)
+MASK = (1 << 64) - 1
+TEXT503 = (b"HTTP/1.1 503 Resource Temporarily Unavailable\r\ncontent-length: 0\r\n\r\n", b"HTTP/1.1 503 Service Temporarily Unavailable\r\ncontent-length: 0\r\n\r\n")
+
+
+def stream_byte(stream, i):
+    x = ((stream * 0x9E3779B97F4A7C15) & MASK) ^ ((i * 0xBF58476D1CE4E5B9 + 0x94D049BB133111EB) & MASK)
+    x ^= x >> 29; x = (x * 0xBF58476D1CE4E5B9) & MASK; x ^= x >> 32
+    return x & 0xff
+
+
+_STREAMS = {}
+
+
+def stream_bytes(stream, a, b):
+    """bytes [a, b) of the deterministic stream (memoised: the monitor looks at the same range many times)"""
+    have = _STREAMS.get(stream, b"")
+    if len(have) < b:
+        if len(_STREAMS) > 64: _STREAMS.clear()
+        have = have + bytes(stream_byte(stream, i) for i in range(len(have), b))
+        _STREAMS[stream] = have
+    return have[a:b]
+
+
+def fnv(bs):
+    h = 1469598103934665603
+    for b in bs:
+        h ^= b; h = (h * 1099511628211) & MASK
+    return "%016x" % h
+
 
 RESP503 = re.compile(rb"^HTTP/1\.1 503 [^\r\n]*\r\ncontent-length: 0\r\n\r\n$")
 
@@ -91,6 +136,27 @@ def authority(target):
     return host, port, path
 
 
+def port_overflows(target):
+    """`http://host:digits…` with a non-empty host and a number above 65535: names no port at all"""
+    if not target.startswith(b"http://"): return False
+    auth = target[7:].split(b"/", 1)[0]
+    if auth.startswith(b"["):
+        j = auth.find(b"]")
+        if j < 0: return False
+        p = auth[j + 1:]
+        return p.startswith(b":") and p[1:].isdigit() and int(p[1:]) > 65535
+    if b":" not in auth or b"]" in auth: return False
+    host, p = auth.rsplit(b":", 1)
+    return host != b"" and p.isdigit() and int(p) > 65535
+
+
+def is_bad(r):
+    """a complete request the proxy must refuse: unparsable, its target is not an `http://` URI, or its port
+    does not fit 16 bits"""
+    pr = parse_request(r)
+    return pr is None or not pr["target"].startswith(b"http://") or port_overflows(pr["target"])
+
+
 def is_literal(h):
     if re.match(r"^\d{1,3}(\.\d{1,3}){3}$", h): return True
     return ":" in h and re.match(r"^[0-9a-fA-F:.]+$", h) is not None
@@ -106,6 +172,27 @@ class Sock:
         self.connect_h = None; self.connect_ec = None; self.connect_t = None; self.target = None
         self.accepted_by = None; self.accept_order = None; self.read_started = False; self.connect_order = None
         self.read_end_ctx = None; self.pending_sends = 0; self.pending_data = {}
+        self.digests = []      # (offset, n, digest) of the reads logged as sum= ; recv holds n placeholder bytes there
+        self.max_pending = 0
+        self.raw = None; self.opaque = False    # some digest chunk could not be resolved to known bytes
+
+    def offered(self):
+        """every byte this socket's writes may have put on the wire: what completed writes were accepted
+        for, then the data of the write still in progress (the scripts write one after the other; with two
+        composed writes in progress at once the order is not defined: then only the completed part)"""
+        return self.sent + (b"".join(self.pending_data.values()) if self.max_pending <= 1 else b"")
+
+    def view(self, ref):
+        """the bytes read (`raw`: recv as logged, placeholders where only a digest is known) with every digest chunk replaced by the bytes of `ref` at its offset when the digest
+        agrees, by bytes that differ from them otherwise -> (bytes, all digests agreed)"""
+        out = bytearray(self.raw if self.raw is not None else self.recv); ok = True
+        for (off, n, dg) in self.digests:
+            want = (ref or b"")[off:off + n]
+            if len(want) == n and fnv(want) == dg: out[off:off + n] = want
+            else:
+                ok = False
+                out[off:off + n] = bytes((want[i] ^ 0xff) if i < len(want) else 0xff for i in range(n))
+        return bytes(out), ok
 
 
 def check(impl, scn):
@@ -126,13 +213,15 @@ def _check(impl, scn):
         elif tk[0] == "node" and len(tk) >= 3: nodes[tk[1]] = tk[2].split(",")
         elif tk[0] == "do" and len(tk) >= 3: prog.setdefault(tk[1], []).append(tk[2:])
     # static roles of handlers
-    send_data = {}; send_sock = {}; rl_sock = {}; conn_sock = {}; acc_h = {}
+    send_data = {}; send_sock = {}; rl_sock = {}; conn_sock = {}; acc_h = {}; wl = {}; wl_started = set()
     for ctx, ops in prog.items():
         for op in ops:
             if "." not in op[0]: continue
             o, m = op[0].split(".", 1)
             if m == "send" and len(op) >= 2:
                 send_data[op[1]] = _unhex(_kv(op[2:]).get("data")); send_sock[op[1]] = o
+            elif m == "write_loop" and len(op) >= 2:
+                d_ = _kv(op[2:]); wl[op[1]] = (o, int(d_.get("stream", 0)), int(d_.get("total", 1)), int(d_.get("chunk", 1000)))
             elif m == "read_loop" and len(op) >= 2: rl_sock[op[1]] = o
             elif m == "connect" and len(op) >= 3: conn_sock[op[2]] = (o, op[1])
             elif m == "accept" and len(op) >= 3: acc_h[op[2]] = (o, op[1])
@@ -152,7 +241,7 @@ def _check(impl, scn):
         if n not in socks: socks[n] = Sock(n)
         return socks[n]
     lookups = []
-    acceptor_ep = {}; stop_t = None; now = 0; ended = False; crashed = False; proxy_alive = False
+    acceptor_ep = {}; listeners = set(); stop_t = None; now = 0; ended = False; crashed = False; proxy_alive = False
     n_conn = 0; n_acc = {}
     started_sends = {}
     for ln in impl:
@@ -170,6 +259,7 @@ def _check(impl, scn):
                 if m in ("stop", "destroy") and stop_t is None: stop_t = now
             elif m == "bind" and o.startswith("a") and res and res[0] == "ok":
                 acceptor_ep[o] = _kv(res).get("local")
+            elif m == "listen" and o.startswith("a") and res and res[0] == "ok": listeners.add(o)
             elif m == "connect" and len(op) >= 3:
                 s = S(o); s.target = op[1]; s.connect_h = op[2]; s.connect_t = now; s.connect_ec = None
                 s.connect_stopped = stop_t is not None
@@ -180,6 +270,12 @@ def _check(impl, scn):
                 if not (ctx in rl_sock and rl_sock[ctx] == o): s.closed_by_self = True
             elif m == "send" and len(op) >= 2:
                 started_sends[op[1]] = o; S(o).pending_sends += 1; S(o).pending_data[op[1]] = send_data.get(op[1], b"")
+                S(o).max_pending = max(S(o).max_pending, len(S(o).pending_data))
+            elif m == "write_loop" and len(op) >= 2 and op[1] in wl and op[1] not in wl_started:
+                wl_started.add(op[1]); S(o).pending_sends += 1
+                _, st_, tot_, ch_ = wl[op[1]]
+                S(o).pending_data[op[1]] = stream_bytes(st_, 0, min(ch_, tot_))
+                S(o).max_pending = max(S(o).max_pending, len(S(o).pending_data))
             elif m == "read_loop": S(o).read_started = True
         elif tk[0] == "H":
             h = tk[1]; d = _kv(tk[2:]); ec = d.get("ec")
@@ -192,9 +288,19 @@ def _check(impl, scn):
             elif h in send_data and h in started_sends:
                 s = S(started_sends[h]); s.sent += send_data[h][:int(d.get("n", 0))]; s.pending_sends -= 1; s.pending_data.pop(h, None)
                 if ec != "ok": s.send_failed = True
+            elif h in wl and h in wl_started:
+                o_, st_, tot_, ch_ = wl[h]; s = S(o_); n_ = int(d.get("n", 0)); off_ = int(d.get("off", 0))
+                s.sent += stream_bytes(st_, off_, off_ + n_)
+                if ec != "ok" or off_ + n_ >= tot_:
+                    s.pending_sends -= 1; wl_started.discard(h); s.pending_data.pop(h, None)
+                    if ec != "ok": s.send_failed = True
+                else: s.pending_data[h] = stream_bytes(st_, off_ + n_, min(tot_, off_ + n_ + ch_))
             elif h in rl_sock:
                 s = S(rl_sock[h])
-                if ec == "ok": s.recv += _unhex(d.get("data"))
+                if ec == "ok":
+                    if "sum" in d:
+                        n_ = int(d.get("n", 0)); s.digests.append((len(s.recv), n_, d["sum"])); s.recv += b"\0" * n_
+                    else: s.recv += _unhex(d.get("data"))
                 elif s.eof is None: s.eof = ec
         elif tk[0] == "R" and " n=" in ln: ended = True
         elif tk[0] == "L" and len(tk) >= 5:
@@ -221,12 +327,22 @@ def _check(impl, scn):
         alive = (c.eof is None and not c.closed_by_self)
         if alive: busy_at_end = True
         if not c.read_started: continue
+        if c.digests:
+            # reads logged by digest: the bytes are those of the first known text every digest agrees with
+            c.raw = c.recv; v = None
+            for ref in [oc.offered() for l_ in origin_conns.values() for oc in l_] + list(TEXT503):
+                b_, ok_ = c.view(ref)
+                if ok_ and (v is None or ref.startswith(b_)):
+                    v = b_
+                    if ref.startswith(b_): break
+            if v is None: v = c.view(None)[0]; c.opaque = True
+            c.recv = v
         if c.pending_sends > 0:
             # a composed write never completed: the proxy received an unknown prefix of its data.
             # Only what holds for every prefix is checked: whatever the client received is the
             # beginning of a 503 response or of what some origin connection sent.
-            if c.recv and not RESP503.match(c.recv) and not any(oc.sent.startswith(c.recv) for l_ in origin_conns.values() for oc in l_) \
-                    and not any(r.startswith(c.recv) for r in (b"HTTP/1.1 503 Resource Temporarily Unavailable\r\ncontent-length: 0\r\n\r\n", b"HTTP/1.1 503 Service Temporarily Unavailable\r\ncontent-length: 0\r\n\r\n")):
+            if c.recv and not RESP503.match(c.recv) and not any(oc.offered().startswith(c.recv) for l_ in origin_conns.values() for oc in l_) \
+                    and not any(r.startswith(c.recv) for r in TEXT503) and not c.opaque:
                 fails.append(("relay_verbatim", "%s received %r, neither a 503 response nor bytes an origin sent" % (c.name, c.recv[:60])))
             continue
         reqs, tail = split_requests(c.sent)
@@ -236,6 +352,16 @@ def _check(impl, scn):
             continue
         r0 = parse_request(reqs[0])
         au = authority(r0["target"]) if r0 else None
+        if r0 is not None and au is None and r0["target"].startswith(b"http://"):
+            # an `http://` target whose authority names no host / no port: malformed, or "cannot be
+            # resolved or connected" — nothing or one 503, then close; never a byte of an origin
+            if c.opaque: continue
+            EVAL["malformed_closes:first_bad_authority"] += 1
+            if c.recv and not (RESP503.match(c.recv) or (c.closed_by_self and any(t.startswith(c.recv) for t in TEXT503))):
+                fails.append(("malformed_closes", "%s: first request names no valid host:port (%r), yet it received %r" % (c.name, r0["target"][:40], c.recv[:60])))
+            elif ended and c.eof is None and not c.closed_by_self:
+                fails.append(("malformed_closes", "%s: first request names no valid host:port (%r), connection still open at the end" % (c.name, r0["target"][:40])))
+            continue
         if r0 is None or au is None:
             if c.recv: fails.append(("malformed_closes", "%s: first request malformed or not absolute, yet it received %r" % (c.name, c.recv[:40])))
             if ended and c.eof is None and not c.closed_by_self:
@@ -248,10 +374,19 @@ def _check(impl, scn):
             err, ips_ = dns.get(hs, ("host_not_found", []))
             addr = ips_[0] if (err == "ok" and ips_) else None
         ep = ep_str(addr, port) if addr else None
-        listening = ep is not None and ep in acceptor_ep.values()
+        listening = ep is not None and any(acceptor_ep.get(a_) == ep for a_ in listeners)
         # a later request that is malformed or not absolute closes the connection whatever was going on
         later_bad = any((lambda q: q is None or authority(q["target"]) is None)(parse_request(r)) for r in reqs[1:])
+        # ... and when it is unparsable or not an `http://` URI at all, the statement demands that close
+        # (an `http://` target with a broken authority is forwarded to the session's origin like a
+        # request for another host: outside the statement, see ASSUME)
+        must_close = any(is_bad(r) for r in reqs[1:])
+        if must_close and ended and not c.closed_by_self: EVAL["malformed_closes:later" + ("_listening" if listening else "")] += 1
+        if must_close and ended and c.eof is None and not c.closed_by_self:
+            fails.append(("malformed_closes", "%s: request %d of the session is malformed or not in absolute form, connection still open at the end" % (c.name, 2 + [is_bad(r) for r in reqs[1:]].index(True))))
+            continue
         if not listening:
+            if c.opaque: continue
             if later_bad and c.recv == b"" and c.eof is not None: continue
             # unresolvable or refused: exactly one 503, then close
             if c.recv and not (RESP503.match(c.recv) or (b"HTTP/1.1 503 ".startswith(c.recv[:13]) and c.closed_by_self)):
@@ -269,12 +404,16 @@ def _check(impl, scn):
             a2 = authority(pr["target"]) if pr else None
             if pr is None or a2 is None or (a2[0], a2[1]) != (host, port): break
             exp.append((pr, a2))
-        pending.setdefault(ep, []).append(dict(c=c, exp=exp, all_same=len(exp) == len(reqs), tail=tail))
+        # the request after the expected ones is one the proxy must refuse: nothing beyond them is forwarded
+        strict = len(exp) < len(reqs) and is_bad(reqs[len(exp)])
+        pending.setdefault(ep, []).append(dict(c=c, exp=exp, all_same=len(exp) == len(reqs), tail=tail, strict=strict))
 
     def judge(ep, sess, oc):
         """the statement for one session and the origin connection attributed to it (or None)"""
         f = []
-        c, exp, all_same, tail = sess["c"], sess["exp"], sess["all_same"], sess["tail"]
+        c, exp, all_same, tail, strict = sess["c"], sess["exp"], sess["all_same"], sess["tail"], sess["strict"]
+        crecv = c.view(oc.offered() if oc else None)[0] if c.digests else c.recv
+        if oc is not None and oc.digests: return f     # origin reads logged by digest: requests not visible
         if oc is None:
             if c.recv: f.append(("relay_verbatim", "%s received %r but no origin connection exists for it" % (c.name, c.recv[:40])))
             if c.eof is not None and not c.closed_by_self and all_same and tail == b"" and ended:
@@ -284,6 +423,7 @@ def _check(impl, scn):
         for i, g in enumerate(got):
             if i >= len(exp):
                 if all_same: f.append(("origin_bytes", "origin %s received more requests than %s sent: %r" % (ep, c.name, g[:60])))
+                elif strict: f.append(("origin_bytes", "origin %s received %r although request %d of %s is malformed or not in absolute form and closes the connection" % (ep, g[:60], len(exp) + 1, c.name)))
                 break
             pr, a2 = exp[i]
             pg = parse_request(g)
@@ -292,17 +432,25 @@ def _check(impl, scn):
             if pg is None or pg["method"] != pr["method"] or pg["target"] != a2[2] or pg["version"] != b"HTTP/1.1" or pg["headers"] != want_h:
                 f.append(("origin_bytes", "origin %s: request %d of %s arrived as %r, expected %s %s HTTP/1.1 with headers %r" % (ep, i + 1, c.name, g[:120], pr["method"], a2[2], want_h)))
                 break
-        if gtail and all_same and len(got) == len(exp):
-            f.append(("origin_bytes", "origin %s received trailing bytes %r beyond the requests of %s" % (ep, gtail[:40], c.name)))
-        if not oc.sent.startswith(c.recv):
-            f.append(("relay_verbatim", "%s received %r…, not a prefix of what origin %s sent (%r…)" % (c.name, c.recv[:60], ep, oc.sent[:60])))
+        if gtail and (all_same or strict) and len(got) == len(exp):
+            f.append(("origin_bytes", "origin %s received trailing bytes %r beyond the %srequests of %s" % (ep, gtail[:40], "well-formed " if strict else "", c.name)))
+        off_ = oc.offered()
+        if not (off_.startswith(crecv) if oc.max_pending <= 1 else (off_.startswith(crecv[:len(off_)]) and (len(crecv) <= len(off_) or oc.pending_sends > 0))):
+            k = next((i for i in range(min(len(crecv), len(off_))) if crecv[i] != off_[i]), min(len(crecv), len(off_)))
+            f.append(("relay_verbatim", "%s received %r…, not a prefix of what origin %s sent (%r…): first difference at byte %d of %d received / %d sent" % (c.name, crecv[:60], ep, off_[:60], k, len(crecv), len(off_))))
         undisturbed = (c.eof is None and oc.eof is None and not c.closed_by_self and not oc.closed_by_self and ended
                        and c.pending_sends == 0 and oc.pending_sends == 0 and oc.read_started)
+        if strict: EVAL["origin_bytes:strict_after_bad"] += 1
+        if c.digests: EVAL["relay_verbatim:digest"] += 1
         if undisturbed and all_same and tail == b"":
+            EVAL["origin_complete+relay_complete"] += 1
+            if len(exp) >= 2: EVAL["origin_complete+relay_complete:pipelined"] += 1
+            if len(oc.sent) > 1475: EVAL["relay_complete:>1475B"] += 1
+            if len(oc.sent) > 65536: EVAL["relay_complete:>64KiB"] += 1
             if len(got) != len(exp) or gtail:
                 f.append(("origin_complete", "origin %s received %d of the %d requests %s sent although nobody closed" % (ep, len(got), len(exp), c.name)))
-            if c.recv != oc.sent:
-                f.append(("relay_complete", "%s received %d of the %d bytes origin %s sent although nobody closed" % (c.name, len(c.recv), len(oc.sent), ep)))
+            if crecv != oc.sent:
+                f.append(("relay_complete", "%s received %d of the %d bytes origin %s sent although nobody closed" % (c.name, len(crecv), len(oc.sent), ep)))
         if c.eof is not None and not c.closed_by_self and oc.eof is None and not oc.closed_by_self and all_same and tail == b"":
             f.append(("served", "%s: the proxy closed the client connection although client and origin %s were both still open and all requests were well-formed" % (c.name, ep)))
         return f
@@ -338,6 +486,10 @@ def _check(impl, scn):
                 pr = parse_request(r)
                 au = authority(pr["target"]) if pr else None
                 if au and not is_literal(au[0].decode("latin1")): wanted.add(au[0])
+                elif pr and au is None and pr["target"].startswith(b"http://"):
+                    # an authority naming no valid host:port: whatever part of it the proxy takes for the host
+                    raw = pr["target"][7:].split(b"/")[0]
+                    wanted.update((raw, raw.rsplit(b":", 1)[0], raw.strip(b"[]")))
         for nm in lookups:
             if nm not in wanted:
                 fails.append(("lookup_is_requested_name", "the proxy looked up %r, which is not the (non-literal) host of any request a client sent" % nm)); break
